@@ -599,6 +599,25 @@ class ST:
     def diagonal(self, offset=0, dim1=0, dim2=1):
         return ST(np.diagonal(self.a, offset=offset, axis1=dim1, axis2=dim2))
 
+    def max(self, dim=None):
+        """global maximum (tensor.max() without a dimension): a reduction over EVERY element, batch rows included"""
+        if dim is not None:
+            raise NotImplementedError("ST.max(dim)")
+        flat = list(self.a.reshape(-1))
+        tot = flat[0]
+        for n in flat[1:]:
+            tot = nmax(tot, n)
+        return ST(np.array(tot, dtype=object))
+
+    def min(self, dim=None):
+        if dim is not None:
+            raise NotImplementedError("ST.min(dim)")
+        flat = list(self.a.reshape(-1))
+        tot = flat[0]
+        for n in flat[1:]:
+            tot = nmin(tot, n)
+        return ST(np.array(tot, dtype=object))
+
     def sum(self, dim=None, keepdim=False):
         if dim is None:
             tot = 0
